@@ -108,6 +108,60 @@ def string_formulas(env):
     return out
 
 
+# ----------------------------------------------------------------------------- sorts against operator positions
+def sorted_atom_formulas(env):
+    """Bool-sorted terms headed by operators of OTHER theories (select on arrays with Bool elements,
+    also nested; applications of Bool-valued functions; ite over such terms; bit-vector and
+    arithmetic relations; quantified formulas) at EVERY argument position of the Boolean-level
+    operators whose reading depends on the sorts of the operands (= read as Iff or Equals, ite, xor,
+    =>, and, or - both sides, also under not); and the dual: non-Bool terms headed by a
+    Boolean-looking operator (ite with a Bool condition over Int / BV / array branches) on either
+    side of =."""
+    from pysmt.typing import BOOL, INT, BVType, ArrayType, FunctionType
+    m = env.formula_manager
+    p, q = m.Symbol("p", BOOL), m.Symbol("q", BOOL)
+    i, j = m.Symbol("i", INT), m.Symbol("j", INT)
+    v, w = m.Symbol("v", BVType(4)), m.Symbol("w", BVType(4))
+    a = m.Symbol("ab", ArrayType(INT, BOOL))
+    mm = m.Symbol("mb", ArrayType(BVType(4), ArrayType(INT, BOOL)))
+    ai, bi = m.Symbol("ai", ArrayType(INT, INT)), m.Symbol("bi", ArrayType(INT, INT))
+    fb = m.Symbol("fb", FunctionType(BOOL, [INT]))
+    atoms = [m.Select(a, i),
+             m.Select(m.Select(mm, m.BV(3, 4)), i),
+             m.Select(m.Store(a, j, p), i),
+             m.Function(fb, [i]),
+             m.Ite(p, m.Select(a, i), m.Function(fb, [j])),
+             m.BVULT(v, w),
+             m.Equals(m.BVComp(v, w), m.BV(1, 1)),
+             m.Equals(i, j),
+             m.LE(i, m.Plus(j, m.Int(1))),
+             m.ForAll([i], m.Select(a, i)),
+             m.Exists([j], m.Function(fb, [j]))]
+    out = []
+    for k, x in enumerate(atoms):
+        others = [p, atoms[(k + 3) % len(atoms)]]
+        for y in others:
+            out += [m.Iff(x, y), m.Iff(y, x), m.Not(m.Iff(x, y)), m.Iff(m.Not(x), y), m.Iff(y, m.Not(x)),
+                    m.Implies(x, y), m.Implies(y, x), m.Xor(x, y), m.Xor(y, x),
+                    m.And(q, m.Iff(x, y)), m.Or(m.Iff(y, x), q),
+                    m.Ite(x, y, q), m.Ite(q, x, y), m.Ite(q, y, x),
+                    m.Iff(m.Iff(x, y), q), m.Iff(q, m.Iff(y, x))]
+        # the dual: a non-Bool ite whose condition is such a term, on either side of =
+        out += [m.Equals(m.Ite(x, i, j), m.Int(2)), m.Equals(m.Int(2), m.Ite(x, i, j)),
+                m.Equals(m.Ite(x, v, w), v), m.Equals(m.Ite(x, ai, bi), m.Store(ai, i, j)),
+                m.Equals(m.Select(m.Ite(x, ai, bi), i), j),
+                m.ForAll([i], m.And(p, m.Iff(x, p)))]
+    # arrays of Bool compared as a whole, and a select of one compared with a select of another
+    out += [m.Equals(a, m.Store(a, i, q)), m.Iff(m.Select(a, i), m.Select(a, j)),
+            m.Iff(m.Select(a, i), m.Select(m.Select(mm, v), j)), m.Equals(m.Select(mm, v), a)]
+    seen, uniq = set(), []
+    for f in out:
+        if f not in seen:
+            seen.add(f)
+            uniq.append(f)
+    return uniq
+
+
 # ----------------------------------------------------------------------------- indexed operators
 IDX_WIDTHS = (8, 64, 102, 128, 257, 1000)
 
@@ -587,12 +641,14 @@ def run(tier):
     n = 400 if tier == "quick" else 5000
     cases, hr_cases = [], []
     env = g = None
-    senv, ienv = Environment(), Environment()
+    senv, ienv, aenv = Environment(), Environment(), Environment()
     idx = indexed_formulas(ienv, rnd)
     strs = string_formulas(senv)
-    special = [(ienv, f) for f in idx] + [(senv, f) for f in strs]
+    sats = sorted_atom_formulas(aenv)
+    special = [(ienv, f) for f in idx] + [(senv, f) for f in strs] + [(aenv, f) for f in sats]
     stats["string_constant_formulas"] = len(strs)
     stats["indexed_operator_formulas"] = len(idx)
+    stats["sorted_atom_formulas"] = len(sats)
     for i0 in range(n + len(special)):
         i = i0 - len(special)
         if i < 0:
@@ -647,7 +703,7 @@ def run(tier):
                                "operators_lost": culprit},
                               key="roundtrip:" + ("+".join(culprit) if culprit else hashlib.md5(text.encode()).hexdigest()[:10]))
         ascii_strings = all(ord(ch) < 128 for v in string_constants(f) for ch in v)       # the Coq models are byte-level
-        if all(b is not None and isinstance(b, FNode) for b in backs) and ascii_strings and len(cases) < (560 if tier == "quick" else 3000):
+        if all(b is not None and isinstance(b, FNode) for b in backs) and ascii_strings and len(cases) < (760 if tier == "quick" else 3400):
             cases.append((f, backs[0], backs[1]))
         hr_check(chk, env, f, stats)
         if not has_array_value(f) and len(hr_cases) < (300 if tier == "quick" else 3000):
